@@ -561,6 +561,10 @@ func (fr *Frame) loopInvariants(li *loopInfo) []*Clause {
 	}
 	var out []*Clause
 	for _, c := range li.lc.Invariants {
+		if fr.mode != nil && fr.mode.Safety && len(c.Props) > 0 && !hasProp(c.Props, "C05") {
+			// an invariant written for one property's functional argument is not part of the safety sweep
+			continue
+		}
 		if fr.wantClause(c) {
 			out = append(out, c)
 		}
